@@ -20,6 +20,7 @@ import Proofs.GoTiePluginI
 import Proofs.GoTieWriteStanza
 import Proofs.GoTiePluginUI
 import Props.C16
+import Proofs.GoTieWitnessB
 namespace AgeModel
 namespace Tie.C16
 open Extracted Plugin GoTie
@@ -131,6 +132,15 @@ theorem code_wrap_never_empty {S σ υ χ : Type} (E : PluginEnv S σ υ χ)
     obtain ⟨_, _, h3⟩ := hres
     rw [e3, hok] at h3
     cases err <;> simp [rErrRel] at h3
+
+/-- **the assumption structures this file's theorems take are satisfiable** (for a lawful toy primitive suite
+    with the 16-byte tag, where they mention primitives): none of the theorems above is vacuous. The instances are in
+    `Proofs/GoTieWitnessA.lean` / `GoTieWitnessB.lean`. -/
+theorem assumptions_satisfiable :
+    Nonempty (GoTie.MarshalEnv Bytes Unit Bytes) ∧
+    (∀ {S : Type} (ui : Plugin.UI S) (dec : String → Option Bytes) (script : Plugin.Conv) (st0 : S), ∃ E : GoTie.PluginEnv S (List Plugin.Stanza × Plugin.End) Unit (List Plugin.Stanza × S), E.ui = ui ∧ E.dec = dec ∧ E.script = script ∧ E.st0 = st0) ∧
+    Nonempty (GoTie.UIEnv (List Plugin.Stanza)) :=
+  ⟨⟨GoTie.MarshalEnv.witness⟩, (fun ui dec script st0 => ⟨GoTie.PluginEnv.witness ui dec script st0, GoTie.PluginEnv.witness_ui ui dec script st0⟩), ⟨GoTie.UIEnv.witness⟩⟩
 
 end Tie.C16
 end AgeModel
